@@ -529,3 +529,8 @@ Definition pipe_ok (s : pipe_rec) : bool :=
 
 Lemma stdtype_library_ok : forallb pump_ok pump_library = true /\ forallb pipe_ok pipe_library = true.
 Proof. split; vm_compute; reflexivity. Qed.
+
+(* ------------------------------------------------------------------ create_pipe(std_type) copies the library parameters *)
+Lemma std_types_reach_pipes_lemma :
+  forallb (reaches_unchanged create_pipe_std_columns retrieve_u_writes) pipe_library = true.
+Proof. vm_compute. reflexivity. Qed.
